@@ -244,7 +244,8 @@ PROPS = {
     },
     'C12': {
         'trusted': [LOG_CRC,
-                    'strace 6.x syscall log order (entry/exit lines) as the witness of write/fdatasync ordering in the traced concurrent runs',
+                    'the in-process fdatasync probe of the harness binary (its own `fdatasync` symbol, which the log\'s libc call resolves to: file length when the call was issued, published as durable when the call has returned) as the witness of durability at return in every concurrent run; strace 6.x syscall log order (entry/exit lines) as a second witness in the traced runs',
+                    'sync42::verif event log (cfg rescrv_blue_verif; observer only) to stage the directed fsync-queue schedules without timing assumptions',
                     'the harness-side frame walker (used only to choose cut points, to group the observed batches into frames and for statistics; the model recomputes the file from the grouping)'],
         'assumptions': [LOG_CRC,
                         'a file damaged other than by truncation is outside C12 (C09); the malformed-input stream checks reader correspondence only',
@@ -252,7 +253,7 @@ PROPS = {
                         'concurrency: the queue theorems quantify over all interleavings of the modelled critical sections; the run-time check samples schedules (in-process and under strace)'],
         'partial': [],
         'level_text': 'Sequential log: for every batch list (every batch size up to TABLE_FULL_SIZE, the limit the reader itself enforces: covers MAX_BATCH_SIZE and the BLOCK_SIZE that WriteBatch accepts) the model reader returns exactly the appended batches from the model writer\'s bytes whatever the block alignment (append_read, log_roundtrip), every truncation delivers a prefix of the batches and nothing else (truncated_log_prefix, readSome_take_prefix for arbitrary bytes), bytes before a damage point are read identically (reads_agree_before_damage), and a crash between write/fdatasync/ack leaves a readable prefix containing every acknowledged batch (crash_prefix); the parameters are the ones extracted from sst/src/log.rs (good_real). Concurrent appends: the work-coalescing queue hands the core every input once in link order and returns each caller its own result for all interleavings (Wcq/WcqV), and a caller answered true by the fsync core is covered by a completed fdatasync (answered_true_is_durable). The model is tied to the code byte-for-byte: real LogBuilder output vs writeAll (whole file hash, 64 KiB chunk hashes, 96-byte windows round each block boundary, full hex for small files), real LogIterator drain vs model reader, every cut of small files and every cut within +-64 bytes of each frame/header/padding/block boundary of >=1 MiB files, and the final file of N-thread ConcurrentLogBuilder runs vs writeAll of the observed merge.',
-        'level_note': 'Trusted: Lean kernel; axioms propext, Classical.choice, Quot.sound; CRC-32C as a parameter; correspondence is agreement on generated cases only; durability at return is observed (strace ordering of write/fdatasync/return markers) on sampled schedules, the all-interleavings statement is about the queue model.',
+        'level_note': 'Trusted: Lean kernel; axioms propext, Classical.choice, Quot.sound; CRC-32C as a parameter; correspondence is agreement on generated cases only; durability at return is observed (fdatasync probe in every concurrent run, strace ordering of write/fdatasync/return markers in some) on sampled schedules with fsync() callers interleaved and on two staged schedules (appends, then an fsync() caller, queued behind an fsync leader held inside fdatasync), the all-interleavings statement is about the queue model.',
     },
     'C18': {
         'post': c18_post,
